@@ -16,7 +16,7 @@ def sh(cmd, **kw):
 def tests():
     r = sh(f"cd {wt} && PYTHONPATH={wt}/src timeout 1500 /venv/bin/python -m pytest -q -p no:cacheprovider --timeout=900 --continue-on-collection-errors 2>&1 | tail -60")
     summ = [l for l in r.stdout.splitlines() if re.search(r"\d+ passed", l)]
-    failed = sorted(l.split(" - ")[0] for l in r.stdout.splitlines() if l.startswith(("FAILED", "ERROR")))
+    failed = sorted(l.split(" - ")[0] for l in r.stdout.splitlines() if l.startswith(("FAILED tests", "ERROR tests")))
     return (summ[-1] if summ else r.stdout[-200:]), failed
 
 
@@ -28,12 +28,12 @@ demo = [f for f in os.listdir(wt) if f.startswith("demo_") and f.endswith(".py")
 if not demo:
     sys.exit("no demo script")
 demo = demo[0]
-with_change = sh(f"cd {wt} && timeout 120 /venv/bin/python {demo}")
+with_change = sh(f"cd {wt} && PYTHONPATH={wt}/src timeout 120 /venv/bin/python {demo}")
 t_with, f_with = tests()
 open("/tmp/_intake.diff", "w").write(diff)
 sh(f"git -C {wt} checkout -- src")
 try:
-    without = sh(f"cd {wt} && timeout 120 /venv/bin/python {demo}")
+    without = sh(f"cd {wt} && PYTHONPATH={wt}/src timeout 120 /venv/bin/python {demo}")
     t_without, f_without = tests()
 finally:
     a = sh(f"git -C {wt} apply /tmp/_intake.diff")
